@@ -861,7 +861,7 @@ class Food(UnitConversions):
 
         self.validate_if_list()
 
-        return Food(
+        food_at_key = Food(
             kcals=self.kcals[key],
             fat=self.fat[key],
             protein=self.protein[key],
@@ -869,6 +869,10 @@ class Food(UnitConversions):
             fat_units=self.fat_units,
             protein_units=self.protein_units,
         )
+        if not food_at_key.is_list_monthly():
+            # a single month was selected: "each month" becomes "per month"
+            food_at_key.set_units_from_list_to_element()
+        return food_at_key
 
     def __setitem__(self, key, value):
         """
@@ -984,9 +988,9 @@ class Food(UnitConversions):
                     self.kcals * other.kcals,
                     self.fat * other.fat,
                     self.protein * other.protein,
-                    self.kcals_units,
-                    self.fat_units,
-                    self.protein_units,
+                    kcals_units,
+                    fat_units,
+                    protein_units,
                 )
 
                 assert (
